@@ -528,6 +528,24 @@ func genEventsPlan(r *rand.Rand, tier string) *vfPlan {
 		add(vfStep{Op: "quiesce_daemon"})
 		n := 4 + r.IntN(10)
 		long := 0
+		if chance(r, 0.2) {
+			// one user's oldest entries pass the retention while newer ones of the same user stay: the hourly sweep
+			// has to unlink from the old end of a list that does not become empty
+			u := pick(r, users)
+			for k := 0; k < 1+r.IntN(3); k++ {
+				add(vfStep{Op: "rec_event", User: u, A: pick(r, []string{"auth", "ssh", "x509"}), N: int64(r.IntN(8))})
+			}
+			add(vfStep{Op: "advance", D: pick(r, []string{"300h", "400h"})})
+			for k := 0; k < 1+r.IntN(3); k++ {
+				add(vfStep{Op: "rec_event", User: u, A: pick(r, []string{"auth", "weblogin", "x509"}), N: int64(r.IntN(8))})
+			}
+			add(vfStep{Op: "advance", D: pick(r, []string{"445h", "460h"})})
+			add(vfStep{Op: "advance", D: "1h1m"})
+			add(vfStep{Op: "rec_check"})
+			add(vfStep{Op: "rec_event", User: u, A: "ssh", N: 1})
+			long = 3
+			n = 2 + r.IntN(4)
+		}
 		for i := 0; i < n; i++ {
 			switch x := r.IntN(100); {
 			case x < 60:
